@@ -57,6 +57,12 @@ type hmtxCase struct {
 	ext      []funit.Rect16 // may be nil
 	info     *hmtx.Info
 	negWidth bool
+	altFrac  float64 // selects the alternative numberOfHMetrics for the decode-only clause
+}
+
+// altLong picks a numberOfHMetrics in [minimal, n] from the drawn fraction.
+func (c *hmtxCase) altLong(minimal int) int {
+	return minimal + int(c.altFrac*float64(c.n-minimal)+0.5)
 }
 
 func (c *hmtxCase) String() string {
@@ -67,9 +73,9 @@ func (c *hmtxCase) String() string {
 		}
 		return s
 	}
-	return fmt.Sprintf("hmtx.Info{n=%d mode=%s Widths=%s LSB=%s GlyphExtents=%s Ascent=%d Descent=%d LineGap=%d CaretAngle=%v (%x) CaretOffset=%d}",
+	return fmt.Sprintf("hmtx.Info{n=%d mode=%s Widths=%s LSB=%s GlyphExtents=%s Ascent=%d Descent=%d LineGap=%d CaretAngle=%v (%x) CaretOffset=%d altFrac=%v}",
 		c.n, c.mode, show(c.widths, len(c.widths)), show(c.lsb, len(c.lsb)), show(c.ext, len(c.ext)),
-		c.info.Ascent, c.info.Descent, c.info.LineGap, c.info.CaretAngle, math.Float64bits(c.info.CaretAngle), c.info.CaretOffset)
+		c.info.Ascent, c.info.Descent, c.info.LineGap, c.info.CaretAngle, math.Float64bits(c.info.CaretAngle), c.info.CaretOffset, c.altFrac)
 }
 
 func genRect16(t *rapid.T, e *extremes) funit.Rect16 {
@@ -223,6 +229,7 @@ func genHmtx(t *rapid.T, e *extremes) *hmtxCase {
 	if c.mode == "hhea-only" {
 		c.info.Widths = nil
 	}
+	c.altFrac = rapid.SampledFrom([]float64{1, 0.5, 0, 0.25, 0.75, 0.01, 0.99}).Draw(t, "altLongFrac")
 	return c
 }
 
@@ -451,6 +458,37 @@ func checkHmtx(t *rapid.T, c *hmtxCase, e *extremes) {
 				failf(t, "decoded lsb[%d] = %d, want %d\ncase: %s", i, dec.LSB[i], lsbEff[i], c)
 			}
 		}
+		// "however trailing equal widths are compressed": any numberOfHMetrics
+		// between the minimal one and n describes the same metrics; the table
+		// is assembled here, not by the library
+		if altLong := c.altLong(wantLong); altLong != wantLong {
+			hhea3 := append([]byte(nil), hhea...)
+			hhea3[34], hhea3[35] = byte(altLong>>8), byte(altLong)
+			hm3 := make([]byte, 0, 4*altLong+2*(n-altLong))
+			for i := 0; i < n; i++ {
+				if i < altLong {
+					hm3 = append(hm3, byte(uint16(c.widths[i])>>8), byte(c.widths[i]))
+				}
+				hm3 = append(hm3, byte(uint16(lsbEff[i])>>8), byte(lsbEff[i]))
+			}
+			var dec3 *hmtx.Info
+			if pn := guard.Try(func() { dec3, err = hmtx.Decode(hhea3, hm3) }); pn != nil {
+				failf(t, "Decode with numberOfHMetrics=%d: %s\ncase: %s", altLong, pn, c)
+			}
+			if err != nil {
+				failf(t, "Decode with numberOfHMetrics=%d: %v\ncase: %s", altLong, err, c)
+			}
+			if len(dec3.Widths) != n || len(dec3.LSB) != n {
+				failf(t, "numberOfHMetrics=%d: decoded %d widths and %d bearings, want %d\ncase: %s", altLong, len(dec3.Widths), len(dec3.LSB), n, c)
+			}
+			for i := 0; i < n; i++ {
+				if dec3.Widths[i] != c.widths[i] || dec3.LSB[i] != lsbEff[i] {
+					failf(t, "numberOfHMetrics=%d: glyph %d decoded as aw=%d lsb=%d, want aw=%d lsb=%d\ncase: %s", altLong, i, dec3.Widths[i], dec3.LSB[i], c.widths[i], lsbEff[i], c)
+				}
+			}
+			labels = append(labels, "decode-non-minimal-numberOfHMetrics")
+		}
+
 		// second generation: the decoded value (plus the boxes, which are not
 		// part of the two tables) encodes to the same bytes
 		dec.GlyphExtents = c.ext
